@@ -292,10 +292,37 @@ def case_C12(seed):
         from leuvenmapmatching.map.inmem import InMemMap
         import copy, io, contextlib
         U.quiet()
-        im = InMemMap('im', use_latlon=use_latlon, use_rtree=False, graph=copy.deepcopy(g))
-        sm, edges = build_sqlite(g, d, use_latlon=use_latlon, how=rnd.choice(['bulk', 'single', 'deferred']))
+        how = rnd.choice(['bulk', 'single', 'deferred'])
+        grown = seed % 3 == 0 and len(g) >= 3
         ys = [v[0][0] for v in g.values()]
         xs = [v[0][1] for v in g.values()]
+        if grown:
+            # the map is queried, then extended through the single-insert interface, then queried again (both backends)
+            keys = list(g)
+            k1 = set(keys[:max(2, len(keys) // 2)])
+            sub = {k: (g[k][0], [b for b in g[k][1] if b in k1]) for k in keys if k in k1}
+            im = InMemMap('im', use_latlon=use_latlon, use_rtree=False, graph=copy.deepcopy(sub))
+            sm, edges1 = build_sqlite(sub, d, use_latlon=use_latlon, how=how)
+            b0 = [(min(ys), min(xs), max(ys), max(xs))]
+            for mp_ in (im, sm):
+                with contextlib.redirect_stdout(io.StringIO()):
+                    accessor_snapshot(mp_, sub, b0, [((ys[0], xs[0]), 250.0 if use_latlon else 1.5)])
+            for k in keys:
+                if k not in k1:
+                    im.add_node(k, g[k][0])
+                    sm.add_node(k, g[k][0])
+            seen_e = set(edges1)
+            edges = list(edges1)
+            for a in keys:
+                for b in g[a][1]:
+                    if b in g and (a, b) not in seen_e:
+                        seen_e.add((a, b))
+                        edges.append((a, b))
+                        im.add_edge(a, b)
+                        sm.add_edge(a, b)
+        else:
+            im = InMemMap('im', use_latlon=use_latlon, use_rtree=False, graph=copy.deepcopy(g))
+            sm, edges = build_sqlite(g, d, use_latlon=use_latlon, how=how)
         boxes = []
         for _ in range(2):
             y0, y1 = sorted([rnd.choice(ys), rnd.choice(ys) + rnd.choice([0, 1e-3 if use_latlon else 0.75])])
@@ -311,8 +338,9 @@ def case_C12(seed):
         bad = diff_snap(sa, sb, skip=('crs', 'nodes_closeto', 'edges_closeto'))
         if bad:
             k = bad[0]
-            viol.append((f'C12:backends-differ:{k}', f"{k}: in-memory {str(sa[k])[:300]} vs sqlite {str(sb[k])[:300]}",
-                         {'graph': {str(kk): [list(v[0]), v[1]] for kk, v in g.items()}, 'use_latlon': use_latlon, 'boxes': boxes, 'differs': bad}))
+            viol.append((f'C12:backends-differ:{k}', f"{k}{' (map queried, extended by add_node/add_edge, queried again)' if grown else ''}: in-memory {str(sa[k])[:300]} vs sqlite {str(sb[k])[:300]}",
+                         {'graph': {str(kk): [list(v[0]), v[1]] for kk, v in g.items()}, 'use_latlon': use_latlon, 'boxes': boxes, 'differs': bad,
+                          'grown_after_first_queries': grown}))
         else:
             # same edge-based matcher, unbounded initial radius
             tr = U.gen_trace(rnd, {k: ((v[0][0], v[0][1]), v[1]) for k, v in g.items()}, n=rnd.choice([2, 3, 4]), noise=0.0, kind='onroad') if not use_latlon else None
